@@ -103,7 +103,7 @@ def templates(tier, seed):
                 for ref2 in ("#m", "^"):
                     tds.append(dict(fam="chain", rk=rk, f1=f1, f2=f2, ref2=ref2))
     if tier == "quick":
-        tds = sample_quota(tds, lambda t: (t["fam"], t.get("rk")), {"dir": 12, "loc": 24, "edge": 16, "scalar": 24, "size": 10, "chain": 8}, seed)
+        tds = sample_quota(tds, lambda t: (t["fam"], t.get("rk")), {"dir": 1000, "loc": 400, "edge": 150, "scalar": 200, "size": 1000, "chain": 1000}, seed)
     return tds
 
 
